@@ -19,6 +19,7 @@ CONSTANTS
   LevelKinds = {"node", "module", "param"}
   Kinds = {"updateEvent", "updateItem"}
   Behs = {"ok", "oneshot"}
+  ErrBehs = {"raise"}
   InitDescs <- GenInit
   Descs <- GenDescs
   GIdents <- GIdentsQ
